@@ -46,16 +46,21 @@ def run_variant(args):
         mod = importlib.import_module("sa.rules." + prop.lower())
         ctx = Ctx(repo.with_overlay(ov))
         chk = Check(prop, "quick", ctx.repo, quiet=True)
+        from ..core.unconfirmed import withdraw_by_second_pass, withdraw_unconfirmed
         try:
             mod.run(ctx, chk)
-            from ..core.unconfirmed import withdraw_by_second_pass, withdraw_unconfirmed
             withdraw_unconfirmed(ctx, chk)
             withdraw_by_second_pass(ctx, chk, mod, lambda: Ctx(repo.with_overlay(ov)))
         except AnalysisError as e:
             chk.error(e.rule, e.reason)
+            try:
+                withdraw_unconfirmed(ctx, chk)
+            except Exception:
+                pass
+        chk.withdraw_findings_of_broken_rules()
         listed, unlisted, stale = chk.classify()
         fired = [f.rule for f in unlisted]
-        if chk.errors:
+        if chk.errors and not fired:
             return name, "error", "analysis error: %s" % (chk.errors[:2],)
         if expect == "fire":
             if not fired:
